@@ -17,6 +17,8 @@
 -/
 import Vita.C03.Lemmas
 import Vita.C03.Sig
+import Vita.C03.EffSound
+import Vita.Common.Murmur
 
 namespace Vita.C03
 open HashLike
@@ -57,12 +59,6 @@ theorem pack_eq_iff_tree_eq (tab : SymTab) (g1 g2 : Genome) (wf1 : WF tab g1) (w
 inductive Active (tab : SymTab) (g : Genome) : Locus → Locus → Prop
   | root (l) : Active tab g l l
   | arg {l m k} : Active tab g l m → k ∈ argLoci tab (g.at m) → Active tab g l k
-
-theorem catWith_congr {p q : Locus → Option Bytes} :
-    ∀ (ls : List Locus), (∀ l ∈ ls, p l = q l) → catWith p ls = catWith q ls
-  | [], _ => rfl
-  | l :: ls, h => by
-    simp only [catWith, h l (by simp), catWith_congr ls (fun k hk => h k (by simp [hk]))]
 
 /-- Changing genes outside the active tree never changes the packed stream (no
     well-formedness needed, any recursion budget). -/
@@ -206,5 +202,268 @@ example : unfold exTab exG1 (0, 0) = unfold exTab exG2 (1, 0) := by decide
 example : pack exTab exG1 (0, 0) = some [1, 0, 3, 0, 2, 0, 0, 0, 0, 0, 0, 0, 4, 64] := by decide
 example : pack exTab exG1 (0, 0) ≠ pack exTab exG1 (1, 0) := by decide
 end example_
+
+
+/-! ## Part B — the cached signature is never stale -/
+
+open Eff
+
+section generic
+variable {C H : Type} [HashLike H] (hashOf : C → H)
+
+/-- under the invariant, `signature()` returns the hash of the CURRENT content -/
+theorem signature_fresh (s : Cached C H) (i : SigInv hashOf s) :
+    signatureVal hashOf s = hashOf s.content := by
+  unfold signatureVal; rcases i with h | h <;> simp [h]
+
+theorem sig_inv_signature (s : Cached C H) (i : SigInv hashOf s) :
+    SigInv hashOf (signatureOp hashOf s) := by
+  unfold signatureOp SigInv
+  right
+  exact signature_fresh hashOf s i
+
+/-- a content change followed by `clear()` or by `signature_ = hash()` re-establishes the
+    invariant, whatever the new content -/
+theorem sig_inv_update (k : ResetKind) (hk : k ≠ .none) (c : C) (s : Cached C H) :
+    SigInv hashOf (update hashOf k c s) := by
+  unfold update applyReset SigInv
+  cases k with
+  | none => exact absurd rfl hk
+  | clear => left; exact isEmpty_empty
+  | recompute => right; rfl
+
+/-- every constructor starts with an empty signature -/
+theorem sig_inv_init (c : C) : SigInv hashOf (⟨c, empty⟩ : Cached C H) := Or.inl isEmpty_empty
+
+end generic
+
+/-! ### generated obligations (regenerated from the clang AST on every run) -/
+
+set_option maxRecDepth 100000 in
+/-- Every public member function / friend of i_mep, i_ga, i_de, team, individual that touches the
+    content or the cache passes the analysis: by `Eff.safe_sound`, in every execution of its effect
+    skeleton each object in scope has an empty or up-to-date signature at every `return`, a
+    constructor leaves the signature empty, and mutable references / iterators into the content
+    are only handed out with the cache cleared. -/
+theorem mutators_reset : ∀ m ∈ GenMutators.table, Eff.safe m = true := by decide
+
+theorem mutators_sound (h : Nat → Nat) (m : Eff.Method) (hm : m ∈ GenMutators.table) (σ : Eff.St)
+    (hinit : Eff.Sat h m.init σ) : ¬ Eff.Exec h m.body σ .fail :=
+  Eff.safe_sound h m (mutators_reset m hm) σ hinit
+
+/-- how the operations modelled below treat `signature_`, as extracted from the sources -/
+theorem resets_as_modelled :
+    (GenMutators.resetOf "i_mep" "get_block" ≠ .none) ∧ (GenMutators.resetOf "i_mep" "replace" ≠ .none) ∧
+    (GenMutators.resetOf "i_mep" "destroy_block" ≠ .none) ∧ (GenMutators.resetOf "i_mep" "mutation" ≠ .none) ∧
+    (GenMutators.resetOf "i_mep" "crossover" ≠ .none) ∧ (GenMutators.resetOf "i_mep" "cse" ≠ .none) ∧
+    (GenMutators.resetOf "i_mep" "begin" ≠ .none) ∧ (GenMutators.resetOf "individual" "load" ≠ .none) ∧
+    (GenMutators.resetOf "i_ga" "operator[]" ≠ .none) ∧ (GenMutators.resetOf "i_ga" "begin" ≠ .none) ∧
+    (GenMutators.resetOf "i_ga" "mutation" ≠ .none) ∧ (GenMutators.resetOf "i_ga" "crossover" ≠ .none) ∧
+    (GenMutators.resetOf "i_de" "operator[]" ≠ .none) ∧ (GenMutators.resetOf "i_de" "begin" ≠ .none) ∧
+    (GenMutators.resetOf "i_de" "operator=" ≠ .none) ∧ (GenMutators.resetOf "i_de" "crossover" ≠ .none) ∧
+    (GenMutators.resetOf "team" "mutation" ≠ .none) ∧ (GenMutators.resetOf "team" "load" ≠ .none) := by
+  decide
+
+/-! ### i_mep -/
+
+section mep
+variable {H : Type} [HashLike H] (Hf : Bytes → H) (tab : SymTab)
+
+/-- every public mutating operation of `i_mep` preserves the invariant -/
+theorem mep_sig_inv_step (op : MepOp) (s : Mep H) (i : SigInv (mepHash Hf tab) s) :
+    SigInv (mepHash Hf tab) (op.apply Hf tab s) := by
+  have R := resets_as_modelled
+  cases op with
+  | signature => exact sig_inv_signature _ s i
+  | getBlock l =>
+    simp only [MepOp.apply]; split
+    · exact sig_inv_update _ _ R.1 _ _
+    · exact i
+  | replace l ge => exact sig_inv_update _ _ R.2.1 _ _
+  | destroyBlock ws => exact sig_inv_update _ _ R.2.2.1 _ _
+  | mutation ws =>
+    simp only [MepOp.apply]; split
+    · exact sig_inv_update _ _ R.2.2.2.1 _ _
+    · exact i
+  | crossover ws => exact sig_inv_update _ _ R.2.2.2.2.1 _ _
+  | cse ws => exact sig_inv_update _ _ R.2.2.2.2.2.1 _ _
+  | iterWrite ws => exact sig_inv_update _ _ R.2.2.2.2.2.2.1 _ _
+  | load r =>
+    cases r with
+    | none => exact i
+    | some c => exact sig_inv_update _ _ R.2.2.2.2.2.2.2.1 _ _
+
+theorem sig_inv_getBlock (l : Locus) (s : Mep H) (i : SigInv (mepHash Hf tab) s) :
+    SigInv (mepHash Hf tab) ((MepOp.getBlock l).apply Hf tab s) := mep_sig_inv_step Hf tab _ s i
+theorem sig_inv_replace (l : Locus) (ge : Gene) (s : Mep H) (i : SigInv (mepHash Hf tab) s) :
+    SigInv (mepHash Hf tab) ((MepOp.replace l ge).apply Hf tab s) := mep_sig_inv_step Hf tab _ s i
+theorem sig_inv_mutation (ws : List (Locus × Gene)) (s : Mep H) (i : SigInv (mepHash Hf tab) s) :
+    SigInv (mepHash Hf tab) ((MepOp.mutation ws).apply Hf tab s) := mep_sig_inv_step Hf tab _ s i
+theorem sig_inv_crossover (ws : List (Locus × Gene)) (s : Mep H) (i : SigInv (mepHash Hf tab) s) :
+    SigInv (mepHash Hf tab) ((MepOp.crossover ws).apply Hf tab s) := mep_sig_inv_step Hf tab _ s i
+theorem sig_inv_cse (ws : List (Locus × Gene)) (s : Mep H) (i : SigInv (mepHash Hf tab) s) :
+    SigInv (mepHash Hf tab) ((MepOp.cse ws).apply Hf tab s) := mep_sig_inv_step Hf tab _ s i
+theorem sig_inv_load (r : Option MepC) (s : Mep H) (i : SigInv (mepHash Hf tab) s) :
+    SigInv (mepHash Hf tab) ((MepOp.load r).apply Hf tab s) := mep_sig_inv_step Hf tab _ s i
+
+/-- any history of public operations from a freshly constructed individual -/
+theorem mep_sig_inv_reachable (c : MepC) (ops : List MepOp) :
+    SigInv (mepHash Hf tab) (ops.foldl (fun s op => op.apply Hf tab s) (⟨c, empty⟩ : Mep H)) := by
+  suffices h : ∀ (s : Mep H), SigInv (mepHash Hf tab) s →
+      SigInv (mepHash Hf tab) (ops.foldl (fun s op => op.apply Hf tab s) s) from h _ (sig_inv_init _ c)
+  induction ops with
+  | nil => intro s i; exact i
+  | cons op t ih => intro s i; exact ih _ (mep_sig_inv_step Hf tab op s i)
+
+/-- … hence the signature reported after any history is the hash of the current active program -/
+theorem mep_signature_never_stale (c : MepC) (ops : List MepOp) :
+    let s := ops.foldl (fun s op => op.apply Hf tab s) (⟨c, empty⟩ : Mep H)
+    signatureVal (mepHash Hf tab) s = mepHash Hf tab s.content :=
+  signature_fresh _ _ (mep_sig_inv_reachable Hf tab c ops)
+
+end mep
+
+/-! ### i_ga / i_de -/
+
+section vec
+variable {H : Type} [HashLike H] (Hf : Bytes → H)
+
+theorem ga_sig_inv_step (op : GaOp) (s : Vec H) (i : SigInv (gaHash Hf) s) :
+    SigInv (gaHash Hf) (op.apply Hf s) := by
+  have R := resets_as_modelled
+  cases op with
+  | signature => exact sig_inv_signature _ s i
+  | setElem j v => exact sig_inv_update _ _ R.2.2.2.2.2.2.2.2.1 _ _
+  | iterWrite v => exact sig_inv_update _ _ R.2.2.2.2.2.2.2.2.2.1 _ _
+  | mutation v n =>
+    simp only [GaOp.apply]; split
+    · exact sig_inv_update _ _ R.2.2.2.2.2.2.2.2.2.2.1 _ _
+    · exact i
+  | crossover v => exact sig_inv_update _ _ R.2.2.2.2.2.2.2.2.2.2.2.1 _ _
+  | load r =>
+    cases r with
+    | none => exact i
+    | some c => exact sig_inv_update _ _ R.2.2.2.2.2.2.2.1 _ _
+
+theorem de_sig_inv_step (op : DeOp) (s : Vec H) (i : SigInv (deHash Hf) s) :
+    SigInv (deHash Hf) (op.apply Hf s) := by
+  have R := resets_as_modelled
+  cases op with
+  | signature => exact sig_inv_signature _ s i
+  | setElem j v => exact sig_inv_update _ _ R.2.2.2.2.2.2.2.2.2.2.2.2.1 _ _
+  | iterWrite v => exact sig_inv_update _ _ R.2.2.2.2.2.2.2.2.2.2.2.2.2.1 _ _
+  | assignVec v => exact sig_inv_update _ _ R.2.2.2.2.2.2.2.2.2.2.2.2.2.2.1 _ _
+  | crossover v => exact sig_inv_update _ _ R.2.2.2.2.2.2.2.2.2.2.2.2.2.2.2.1 _ _
+  | load r =>
+    cases r with
+    | none => exact i
+    | some c => exact sig_inv_update _ _ R.2.2.2.2.2.2.2.1 _ _
+
+/-- assignment from a vector (the entry point that used to keep the old signature) -/
+theorem sig_inv_assignVec (v : List Nat) (s : Vec H) (i : SigInv (deHash Hf) s) :
+    SigInv (deHash Hf) ((DeOp.assignVec v).apply Hf s) := de_sig_inv_step Hf _ s i
+
+theorem ga_sig_inv_reachable (v : List Nat) (ops : List GaOp) :
+    SigInv (gaHash Hf) (ops.foldl (fun s op => op.apply Hf s) (⟨v, empty⟩ : Vec H)) := by
+  suffices h : ∀ (s : Vec H), SigInv (gaHash Hf) s →
+      SigInv (gaHash Hf) (ops.foldl (fun s op => op.apply Hf s) s) from h _ (sig_inv_init _ v)
+  induction ops with
+  | nil => intro s i; exact i
+  | cons op t ih => intro s i; exact ih _ (ga_sig_inv_step Hf op s i)
+
+theorem de_sig_inv_reachable (v : List Nat) (ops : List DeOp) :
+    SigInv (deHash Hf) (ops.foldl (fun s op => op.apply Hf s) (⟨v, empty⟩ : Vec H)) := by
+  suffices h : ∀ (s : Vec H), SigInv (deHash Hf) s →
+      SigInv (deHash Hf) (ops.foldl (fun s op => op.apply Hf s) s) from h _ (sig_inv_init _ v)
+  induction ops with
+  | nil => intro s i; exact i
+  | cons op t ih => intro s i; exact ih _ (de_sig_inv_step Hf op s i)
+
+end vec
+
+/-! ### team -/
+
+section team
+variable {C H : Type} [HashLike H] (hashOf : C → H)
+
+/-- the members a team operation installs (they come out of their own, already verified,
+    operations, so they respect the invariant) -/
+def TeamOp.members : TeamOp C H → List (Cached C H)
+  | .mutation ms _ => ms
+  | .crossover ms => ms
+  | .load (some ms) => ms
+  | _ => []
+
+theorem team_inv_step (op : TeamOp C H) (t : Team C H) (i : TeamInv hashOf t)
+    (hm : ∀ m ∈ op.members, SigInv hashOf m) : TeamInv hashOf (op.apply hashOf t) := by
+  have R := resets_as_modelled
+  cases op with
+  | signature =>
+    simp only [TeamOp.apply]; split
+    · refine ⟨?_, Or.inr ?_⟩
+      · intro m hmem
+        simp only [List.mem_map] at hmem
+        obtain ⟨m0, h0, rfl⟩ := hmem
+        exact sig_inv_signature _ m0 (i.1 m0 h0)
+      · simp only; exact (teamHash_map_signatureOp hashOf t.content).symm
+    · exact i
+  | mutation ms n =>
+    simp only [TeamOp.apply]; split
+    · exact ⟨hm, sig_inv_update _ _ R.2.2.2.2.2.2.2.2.2.2.2.2.2.2.2.2.1 _ _⟩
+    · exact i
+  | crossover ms => exact ⟨hm, Or.inl isEmpty_empty⟩
+  | load r =>
+    cases r with
+    | none => exact i
+    | some ms => exact ⟨hm, sig_inv_update _ _ R.2.2.2.2.2.2.2.2.2.2.2.2.2.2.2.2.2 _ _⟩
+
+/-- a team reports the combination of the from-scratch hashes of its members, in order -/
+theorem team_signature_fresh (t : Team C H) (i : TeamInv hashOf t) :
+    signatureVal (teamHash hashOf) t =
+      t.content.foldl (fun acc m => combine acc (hashOf m.content)) empty := by
+  rw [signature_fresh _ _ i.2]
+  unfold teamHash
+  have : ∀ (l : List (Cached C H)) (acc : H), (∀ m ∈ l, SigInv hashOf m) →
+      l.foldl (fun acc m => combine acc (signatureVal hashOf m)) acc =
+      l.foldl (fun acc m => combine acc (hashOf m.content)) acc := by
+    intro l
+    induction l with
+    | nil => intro _ _; rfl
+    | cons m t ih =>
+      intro acc hl
+      simp only [List.foldl_cons]
+      rw [signature_fresh hashOf m (hl m (by simp))]
+      exact ih _ (fun m' h' => hl m' (by simp [h']))
+  exact this _ _ i.1
+
+theorem team_inv_reachable (ms : List (Cached C H)) (h0 : ∀ m ∈ ms, SigInv hashOf m)
+    (ops : List (TeamOp C H)) (hops : ∀ op ∈ ops, ∀ m ∈ op.members, SigInv hashOf m) :
+    TeamInv hashOf (ops.foldl (fun t op => op.apply hashOf t) (⟨ms, empty⟩ : Team C H)) := by
+  suffices h : ∀ (t : Team C H), TeamInv hashOf t →
+      TeamInv hashOf (ops.foldl (fun t op => op.apply hashOf t) t) from h _ ⟨h0, Or.inl isEmpty_empty⟩
+  induction ops with
+  | nil => intro t i; exact i
+  | cons op rest ih =>
+    intro t i
+    exact ih (fun o ho => hops o (by simp [ho])) _
+      (team_inv_step hashOf op t i (hops op (by simp)))
+
+end team
+
+/-! non-vacuity: the MurmurHash3 instance and a concrete history -/
+section example2
+instance : HashLike Vita.Murmur.Hash where
+  empty := Vita.Murmur.Hash.zero
+  isEmpty := Vita.Murmur.Hash.isEmpty
+  isEmpty_empty := by decide
+  combine := Vita.Murmur.Hash.combine
+
+def murmurBytes (b : Bytes) : Vita.Murmur.Hash := Vita.Murmur.hash128 (b.map UInt8.ofNat)
+
+example : SigInv (deHash murmurBytes)
+    ([DeOp.signature, DeOp.assignVec [1, 2], DeOp.setElem 0 7, DeOp.signature].foldl
+      (fun s op => op.apply murmurBytes s) (⟨[3, 4], HashLike.empty⟩ : Vec Vita.Murmur.Hash)) :=
+  de_sig_inv_reachable murmurBytes _ _
+end example2
 
 end Vita.C03
